@@ -80,6 +80,15 @@ def replay_schedule(model, cls="SinglePhaseReservoir", nx=4, nt=3, tdtype="f8"):
     a.simulate(t)
     b.simulate(t, pressure_fracface=np.full(nt, pf))
     d = float(np.abs(np.asarray(a.pseudopressure) - np.asarray(b.pseudopressure)).max())
+    if d == 0:
+        # the same schedule on an object configured with another frac-face pressure (3000 psi)
+        c = _real(cls, nx)
+        c.pressure_fracface = 3000.0
+        c.simulate(t, pressure_fracface=np.full(nt, pf))
+        dc = float(np.abs(np.asarray(a.pseudopressure) - np.asarray(c.pseudopressure)).max())
+        if dc > 0:
+            return True, {"what": f"time grid {t.tolist()}: a constant schedule at {pf} psi on a reservoir configured with 3000 psi differs from the scalar setting {pf} psi by {dc:.3e}",
+                          "inputs": {"t": t.tolist()}}
     return d > 0, {"what": f"time grid {t.tolist()} ({t.dtype}), frac-face pressure {pf}: constant schedule vs scalar setting differ by {d:.3e}",
                    "inputs": {"t": t.tolist()}}
 
@@ -231,16 +240,22 @@ def job_schedule(job, nx, nt, tdtype="f8"):
         a.simulate(t)
         b = mod.SinglePhaseReservoir(Q(nx), a.pressure_fracface, a.pressure_initial, fluid)
         b.simulate(t, pressure_fracface=SymArray([a.pressure_fracface] * nt, "f8"))
-        return rows_of(a), rows_of(b)
+        # ... and the same constant schedule on an object configured with ANOTHER frac-face pressure (as the pressure-history
+        # fit does: reservoir built at the initial pressure, schedule passed in): the schedule is what counts
+        c = mod.SinglePhaseReservoir(Q(nx), fresh("pf_configured", pos=True), a.pressure_initial, fluid)
+        c.simulate(t, pressure_fracface=SymArray([a.pressure_fracface] * nt, "f8"))
+        return rows_of(a), rows_of(b), rows_of(c)
 
     for k, pr in enumerate(paths(job, run, [], max_paths=16)):
         if pr.exc is not None:
             job.errors.append(f"{tag} schedule raised {pr.exc!r}")
             continue
-        ra, rb = pr.value
+        ra, rb, rc = pr.value
         flat = lambda rows: [v for r in rows for v in r]
         job.prove(f"{tag}/constant schedule == scalar setting[path{k}]", pr.pc + [_differs(flat(ra), flat(rb))], bound=f"nx={nx}, nt={nt}",
                   replay=(replay_schedule, {"cls": cls, "nx": nx, "nt": nt, "tdtype": tdtype}))
+        job.prove(f"{tag}/constant schedule on an object configured with another frac-face pressure == scalar setting at the schedule's value[path{k}]",
+                  pr.pc + [_differs(flat(ra), flat(rc))], bound=f"nx={nx}, nt={nt}", replay=(replay_schedule, {"cls": cls, "nx": nx, "nt": nt, "tdtype": tdtype}))
     if tdtype != "f8":
         return
     # wrong schedule length: every length from 0 to nt + 2 except nt (a one-element schedule broadcasts in numpy)
